@@ -171,6 +171,8 @@ def run(ctx, prop):
         if prop == 'C10' or not ctx.quick:
             for hc in (with_cuts(h, rng, 2) if ctx.quick else with_cuts(h, rng, 4)):
                 hist.append(('rnd-cut', hc))
+    for _ in range(120 if ctx.quick else 1500):
+        hist.append(('identity', mc.gen_identity(scn, rng, rng.choice([4, 6, 9]))))
     if prop == 'C10':
         for _ in range(30 if ctx.quick else 300):
             for hc in gen_failover(scn, rng):
